@@ -790,7 +790,8 @@ class NonlinearSolver(Solver):
         stalled = False
         stall_count = 0
         if stall_limit > 0:
-            stall_norm = norm0
+            # reference for the first comparison: the initial norm, in the norm type compared.
+            stall_norm = 1.0 if stall_tol_type == 'rel' else norm0
 
         force_one_iteration = system.under_complex_step
 
